@@ -56,13 +56,13 @@ type PayObs struct {
 }
 
 type TxObs struct {
-	Chain string
-	TxID  string
-	Hex   string
-	Kind  string // opening, spend, other
-	Err   string
+	Chain        string
+	TxID         string
+	Hex          string
+	Kind         string // opening, spend, other
+	Err          string
 	SwapOutpoint string // for spends: the swap output spent
-	Path  string // preimage, coop, csv (classified by the chain from the witness)
+	Path         string // preimage, coop, csv (classified by the chain from the witness)
 }
 
 type StoreObs struct {
@@ -106,11 +106,11 @@ type World struct {
 	Monitors   []Monitor
 	Probes     map[string]int // rare-branch probes / fault counters
 
-	faultOcc map[string]int
-	healing  bool
-	Infra    []string // infrastructure trouble (exit 2), never a verdict
-	NodeLogs [2][]string
-	lastSM   *swap.SwapStateMachine
+	faultOcc   map[string]int
+	healing    bool
+	Infra      []string // infrastructure trouble (exit 2), never a verdict
+	NodeLogs   [2][]string
+	lastSM     *swap.SwapStateMachine
 	opsPending int
 	injN       int
 }
